@@ -26,6 +26,9 @@ states, against a slot-level reference model.
   for beta in {0, 0.4, 1};
 * lap_priority / per_priority: positive, non-decreasing in |td error|,
   lap == max(|d|, p_min)**alpha, on a grid of errors / alpha / p_min / epsilon.
+Obligations of the multi-task wrapper (name contains "MultiTaskReplayBuffer") are
+checked by _multitask.run_multitask (priorities of EVERY task's buffer compared
+before / after update_priority and reset_max_priority).
 Histories: every operation sequence of length <= 5 over {add, sample(1),
 sample(3), update, reset} for capacities 1..3 and seeded random walks for
 capacities 2..6 (+ the counter-model's N); priorities supplied to updates
@@ -496,6 +499,15 @@ def main():
     m = model_of(p)
     ob = p.get("obligation", "")
     stats = {}
+    if "MultiTaskReplayBuffer" in ob:
+        # multi-task wrapper (contracts/multitask.py): which task's priorities an update / a reset reaches
+        from _multitask import run_multitask
+
+        w, stats = run_multitask(ob, budget_s=40.0, prefer_n=(lambda v: v + 1 if isinstance(v, int) else None)(m.get("n_tasks_minus_1")))
+        if w:
+            done(True, w)
+        done(False, None, note="multi-task wrapper: directed scenarios and seeded random histories (1..3 tasks, capacities 1..3, LAP / PER / uniform task buffers): every update reaches exactly the "
+             "slots of the most recent batch in the task that produced it, every reset recomputes every task's maximum", stats=stats, seconds=round(time.time() - T0, 1))
     walk_caps = [2, 3, 4, 5, 6]
     for k, v in m.items():
         if k.startswith("N") and isinstance(v, int) and not isinstance(v, bool) and 1 <= v <= 12 and v not in walk_caps:
